@@ -632,10 +632,35 @@ func c32CheckReport(c *kit.Case, in c32ReportInput) {
 	}
 }
 
+// ---- several packages assembled one after the other in ONE process (a guarantor's life): a
+// report depends on its own package only, not on the packages assembled before it
+type c32ReportSeqInput struct {
+	Reports []c32ReportInput `json:"reports"`
+}
+
+func c32GenReportSeq(rt *rapid.T) c32ReportSeqInput {
+	var in c32ReportSeqInput
+	n := rapid.IntRange(2, 4).Draw(rt, "n_packages")
+	for i := 0; i < n; i++ {
+		in.Reports = append(in.Reports, c32GenReport(rt))
+	}
+	return in
+}
+
+func c32CheckReportSeq(c *kit.Case, in c32ReportSeqInput) {
+	if len(in.Reports) > 8 {
+		return
+	}
+	for _, r := range in.Reports {
+		c32CheckReport(c, r)
+	}
+}
+
 func TestVerif_C32(t *testing.T) {
 	s := kit.Begin(t, "C32")
 	defer s.Finish()
 	kit.Run(s, "digest_fields_14_8", kit.N{Quick: 20000, Thorough: 1000000}, c32GenDigest, c32CheckDigestCase)
 	kit.Run(s, "package_spec_14_16", kit.N{Quick: 2400, Thorough: 40000}, c32GenSpec, c32CheckSpec)
 	kit.Run(s, "report_assembly", kit.N{Quick: 1600, Thorough: 24000}, c32GenReport, c32CheckReport)
+	kit.Run(s, "report_assembly_sequences", kit.N{Quick: 800, Thorough: 12000}, c32GenReportSeq, c32CheckReportSeq)
 }
